@@ -215,6 +215,13 @@ func genIniText(r *rand.Rand, t *Tree, n int, oneChain bool, valid bool, noise b
 				if noise {
 					hdr = pad(r, hdr)
 				}
+				if chance(r, 0.12) {
+					// the same header once more, the first time with nothing under it: one section, not two
+					lines = append(lines, hdr)
+					if chance(r, 0.5) {
+						lines = append(lines, pick(r, []string{"", "; nothing here", "# nor here"}))
+					}
+				}
 				lines = append(lines, hdr)
 			}
 			curSec = sec
@@ -651,11 +658,13 @@ func genSessionRoundTrip(r *rand.Rand, t *Tree, id int) *SessionScn {
 	sc := newSession(t, id, "roundtrip")
 	// parser A: presets, then a parse (so that defaults are applied as in any program), then the write;
 	// parser B: fresh, reads what A wrote, then a parse applies the defaults of the omitted options
+	// (a third of the round trips go through a file that already exists: WriteFile / ParseFile)
+	viaW, viaR := chance(r, 0.3), chance(r, 0.3)
 	sc.Calls = append(sc.Calls,
 		argsCall(),
-		Call{Op: "write", IniOpts: pick(r, iniOptCombos), Argv: []S{}, Text: S{}},
+		Call{Op: "write", IniOpts: pick(r, iniOptCombos), Argv: []S{}, Text: S{}, ViaFile: viaW},
 		Call{Op: "fresh", Argv: []S{}, IniOpts: []string{}, Text: S{}},
-		Call{Op: "ini", FromWrite: 2, Argv: []S{}, IniOpts: []string{}, Text: S{}},
+		Call{Op: "ini", FromWrite: 2, Argv: []S{}, IniOpts: []string{}, Text: S{}, ViaFile: viaR},
 		argsCall())
 	return sc
 }
